@@ -256,6 +256,10 @@ class C25(Prop):
             f.write(DUMPER)
         self.n = 0
         os.chdir(self.scratch)
+        # hostile names are interpolated into shell text by the code under test (and by mutants of it): keep every
+        # expansion ($HOME, ~, relative paths) inside the scratch directory
+        os.makedirs(os.path.join(self.scratch, "home"), exist_ok=True)
+        os.environ["HOME"] = os.path.join(self.scratch, "home")
 
         class ShConnector(BaseConnector):
             async def deploy(self, external):
